@@ -1268,6 +1268,9 @@ func (p *Printer) command(cmd Command, redirs []*Redirect) (startRedirs int) {
 			p.spacedToken(cmd.Op.String(), cmd.OpPos)
 			p.advanceLine(cmd.Y.Pos().Line())
 			p.stmt(cmd.Y)
+			// Comments between the operator and Y (or after a heredoc
+			// operator in Y) cannot go before Y on this line.
+			p.comments(cmd.Y.Comments...)
 			break
 		}
 		indent := !p.nestedBinary
